@@ -184,12 +184,19 @@ impl Directive {
             }
             Directive::Org => {
                 if let DirectiveOps::OpList(values) = opts {
-                    if let Operand::E(Expr::Const(value)) = &values[0] {
+                    if let Some(Operand::E(expr)) = values.first() {
+                        let value = match expr.run(&context.common_context) {
+                            Ok(value) if value >= 0 && value <= u32::MAX as i64 => value,
+                            Ok(value) => bail!("origin {} is out of range in {}", value, point),
+                            Err(e) => bail!("{} in {}", e, point),
+                        };
                         if !context.last_segment().unwrap().borrow().is_empty() {
                             let current_type = context.last_segment().unwrap().borrow().t;
                             context.add_segment(Segment::new(current_type));
                         }
-                        context.last_segment().unwrap().borrow_mut().address = *value as u32;
+                        context.last_segment().unwrap().borrow_mut().address = value as u32;
+                    } else {
+                        bail!("wrong format for .org, expected: {} in {}", opts, point,);
                     }
                 } else {
                     bail!("wrong format for .org, expected: {} in {}", opts, point,);
